@@ -10,6 +10,6 @@ trap 'git -C /repo checkout -- . ; git -C /repo clean -fdq' EXIT
 if [ -z "${SKIP_SUITE:-}" ]; then
   (cd /repo && go build ./... && go test -vet=off -count=1 ./... >/tmp/mutant_suite.log 2>&1) && echo "SUITE: passes on mutant" || { echo "SUITE: FAILS on mutant (not a valid seeded change)"; tail -20 /tmp/mutant_suite.log; }
 fi
-cd /verif && ./check "$id" "$tier"; rc=$?
+cd /verif && VERIF_EVIDENCE_DIR=/tmp/mutant_evidence ./check "$id" "$tier"; rc=$?
 echo "CHECK-EXIT=$rc"
 exit 0
